@@ -2,6 +2,7 @@
 //! finite case spaces explored for that tier) and `ASSUMPTIONS`.
 use crate::util::*;
 
+pub mod c12;
 pub mod c16;
 
 pub struct PropDef {
@@ -15,13 +16,22 @@ pub struct PropDef {
 }
 
 pub fn all() -> Vec<PropDef> {
-    vec![PropDef {
+    vec![
+    PropDef {
+        id: "C12",
+        spaces: c12::spaces,
+        assumptions: c12::ASSUMPTIONS,
+        budget: (40.0, 3000.0),
+        post: None,
+    },
+    PropDef {
         id: "C16",
         spaces: c16::spaces,
         assumptions: c16::ASSUMPTIONS,
         budget: (40.0, 3000.0),
         post: None,
-    }]
+    },
+    ]
 }
 
 pub fn find(id: &str) -> Option<PropDef> {
